@@ -168,6 +168,10 @@ func (p *Plan) Sched(key string) (yield, sleepUS int, wait, signal string) {
 		if h%4 == 0 {
 			sleepUS = int((h >> 8) % 500)
 		}
+	case "tick":
+		// every resolver returns on the next tick of a common clock: invocations that are in flight
+		// together complete at the same instant (the attribute is the tick length in microseconds)
+		sleepUS = -1000
 	case "reverse":
 		signal = "done:" + key
 		if n, ok := sc.Next[key]; ok {
